@@ -60,6 +60,17 @@ func c01Forms() []c01Form {
 			c := codeValuer{byte(x), byte(y)}
 			return find(db.Table("t").Where("code IN (?)", c).Where("k = COALESCE(?, k)", tagsValuer{"p", "q"})), []interface{}{c, tagsValuer{"p", "q"}}
 		}},
+		// the same wrappers through the named-expression builder: raw Joins always use it,
+		// Raw/Where use it when the text contains '@'
+		{"valuer-in-paren-raw-join", func(db *gorm.DB, x, y, z int) (*gorm.Statement, []interface{}) {
+			c := codeValuer{byte(x), byte(y)}
+			return find(db.Table("t").Joins("JOIN u ON u.code = f(?) AND u.k = g(?)", c, tagsValuer{"p", "q"}).Where("t.a = ?", z)), []interface{}{c, tagsValuer{"p", "q"}, z}
+		}},
+		{"valuer-in-paren-raw-at", func(db *gorm.DB, x, y, z int) (*gorm.Statement, []interface{}) {
+			var out []map[string]interface{}
+			st := db.Raw("SELECT * FROM t WHERE mail <> 'a@b' AND k = g(?) AND a = ?", tagsValuer{"p", "q"}, x).Scan(&out).Statement
+			return st, []interface{}{tagsValuer{"p", "q"}, x}
+		}},
 		{"named-map", func(db *gorm.DB, x, y, z int) (*gorm.Statement, []interface{}) {
 			return find(db.Table("t").Where("a = @p AND b = @q OR c = @p", map[string]interface{}{"p": x, "q": y})), []interface{}{x, y, x}
 		}},
